@@ -203,7 +203,7 @@ def run_tiling(root, ctx, tier):
         if len(exp["layouts"]) and len(exp["layouts"][-1]) >= 2:
             ctx.nontrivial_case(("tiling", rate, window, label))
 
-        def report(site, probs, outcome, lay, skip=()):
+        def report(site, probs, outcome, lay, skip=(), case=case):
             for tag, text in probs:
                 if tag in skip:
                     continue
@@ -288,7 +288,7 @@ def self_check_3c(ctx, root, case, rcls, site, out, comps, base_windows, n, k, b
     if out[0] == "ok":
         lays = [[locate(comps[c], getattr(w, c).amplitude) for w in out[1]] for c in COMPONENTS]
     probs = layout_problems(out, lays, n, k)
-    report(site, probs, out, lays[0] if lays else None, skip=base_tags or ())
+    report(site, probs, out, lays[0] if lays else None, skip=base_tags or (), case=case)
     ctx.outcome((site, out[0] if out[0] == "raised" else len(out[1])))
     # same code path twice: must agree with the per-component TimeSeries.split exactly
     for c in COMPONENTS:
@@ -348,7 +348,40 @@ def _ts_detrend(a, dt, detrend):
     return ts.amplitude
 
 
+_SOS_CACHE = {}
+
+
+class _memoised_design:
+    """While the *reference* pipeline runs, hvsrpy.timeseries.butter is
+    memoised (same arguments -> a copy of the same coefficients).  Filter design
+    costs more than filtering a short record; the call under test
+    (hvsrpy.preprocess) always runs with the unpatched function."""
+
+    def __enter__(self):
+        import hvsrpy.timeseries as T
+        self.T, self.orig = T, T.butter
+        orig = self.orig
+
+        def butter(*args, **kwargs):
+            key = repr((args, sorted(kwargs.items())))
+            if key not in _SOS_CACHE:
+                if len(_SOS_CACHE) > 256:
+                    _SOS_CACHE.clear()
+                _SOS_CACHE[key] = orig(*args, **kwargs)
+            return np.array(_SOS_CACHE[key])
+        T.butter = butter
+
+    def __exit__(self, *exc):
+        self.T.butter = self.orig
+        return False
+
+
 def pipeline(specs, dt, wlen, corners, detrend, orient, order="documented"):
+    with _memoised_design():
+        return _pipeline(specs, dt, wlen, corners, detrend, orient, order)
+
+
+def _pipeline(specs, dt, wlen, corners, detrend, orient, order="documented"):
     """Windows [(ns, ew, vt)] from the public primitives, applied per component.
 
     order: 'documented'           orient -> filter record -> split -> detrend windows
